@@ -2093,7 +2093,7 @@ def sort_feeds_big_to_small(feeds):
                     return 2
             else:
                 return 2.
-        F_mass_max = max([i.F_mass for i in feeds])
+        F_mass_max = max([i.F_mass for i in feeds if i], default=0)
         feeds.sort(key=feed_priority)
 
 # %% Path tools
